@@ -19,7 +19,7 @@ def main(pid, tier):
         ck.add_tlc(r, "EmuMC/%s (%s tasks)" % (cfg, name))
         if r.violated:
             ck.violation("model %s violates %s" % (cfg, r.violated), {"tlc.out": r.out[-20000:]})
-        emuhist.conformance(ck, bdir, g, tier, limit_quick=4000, limit_thorough=None, label="C07/" + name)
+        emuhist.conformance(ck, bdir, g, tier, limit_quick=12000, limit_thorough=None, label="C07/" + name)
     ck.phase("transition_cover")
     try:
         from checks import taskmod
